@@ -98,8 +98,27 @@ var fileSeq struct {
 	n int
 }
 
-// Solve races the portfolio on q. only restricts to the named solvers (nil = all).
+// Solve runs the portfolio on q: first z3 and z3-new for a few seconds (they settle the vast majority
+// of obligations in well under a second), then the whole portfolio with the full time limit.
+// only restricts to the named solvers (nil = staged portfolio).
 func Solve(env *Env, q Query, only []string, seed int) Answer {
+	if only != nil {
+		return solveWith(env, q, only, seed, env.TimeoutS)
+	}
+	first := 6
+	if env.TimeoutS < first {
+		first = env.TimeoutS
+	}
+	a := solveWith(env, q, []string{"z3", "z3-new"}, seed, first)
+	if a.Res == "sat" || a.Res == "unsat" {
+		return a
+	}
+	b := solveWith(env, q, []string{"cvc5", "cvc5-enum", "z3", "z3-new"}, seed+1, env.TimeoutS)
+	b.TimeS += a.TimeS
+	return b
+}
+
+func solveWith(env *Env, q Query, only []string, seed int, timeoutS int) Answer {
 	os.MkdirAll(env.Work, 0o755)
 	txt := queryFileText(q)
 	h := sha256.Sum256([]byte(txt))
@@ -135,8 +154,8 @@ func Solve(env *Env, q Query, only []string, seed int) Answer {
 		}
 		started++
 		go func(s solverCfg) {
-			argv := s.argv(file, env.TimeoutS, seed)
-			cctx, ccancel := context.WithTimeout(ctx, time.Duration(env.TimeoutS+2)*time.Second)
+			argv := s.argv(file, timeoutS, seed)
+			cctx, ccancel := context.WithTimeout(ctx, time.Duration(timeoutS+2)*time.Second)
 			defer ccancel()
 			cmd := exec.CommandContext(cctx, argv[0], argv[1:]...)
 			var out bytes.Buffer
@@ -229,7 +248,16 @@ func RunAll(env *Env, obls []*Obl, values func(o *Obl) []string) {
 				vals = values(o)
 			}
 			q := Query{Text: o.Query, Values: vals}
-			a := Solve(env, q, nil, 0)
+			var a Answer
+			if o.Canary {
+				// a canary needs a model; with quantified hypotheses the solvers rarely produce one, so only a
+				// short attempt is made: sat = reachable, unsat = vacuous (reported), undecided = no information
+				a = solveWith(env, q, []string{"z3", "z3-new"}, 0, 3)
+			} else if env.Claimed != nil && !env.Claimed(o.Name) {
+				a = solveWith(env, q, []string{"z3", "z3-new"}, 0, 3)
+			} else {
+				a = Solve(env, q, nil, 0)
+			}
 			ApplyAnswer(o, a)
 			o.SMTBytes = len(o.Query)
 			if env.Verbose {
